@@ -30,6 +30,8 @@ type Gate struct {
 	workers map[int]int // goroutine id -> worker index
 	events  chan gateEvent
 	resume  []chan struct{}
+	// Only, when non-nil, restricts parking to these point names
+	Only map[string]bool
 }
 
 func NewGate(n int) *Gate {
@@ -42,6 +44,9 @@ func NewGate(n int) *Gate {
 
 // Point is the verifPoint callback.
 func (g *Gate) Point(point string) {
+	if g.Only != nil && !g.Only[point] {
+		return
+	}
 	g.mu.Lock()
 	w, ok := g.workers[goid()]
 	g.mu.Unlock()
